@@ -225,6 +225,30 @@ Section Atom.
       apply exec_tx_rejected_unchanged.
   Qed.
 
+  (** F52 (current code): no offer -- refused, executed in a discarded attempt, or anything else -- removes the binding *)
+  Lemma offers_keep_binding a t ss : va_after is_name 2 (Some a) t ss = Some a.
+  Proof. induction ss as [|s tl IH]; [reflexivity|]. simpl. exact IH. Qed.
+  (** ... so a pooled tx is never executed against an account other than the one verified at admission, after
+      ANY sequence of earlier offers *)
+  Theorem pooled_tx_never_executes_as_other a bno t ss s o s' :
+    exec_tx_pooled is_name cid_of tx_hash vm cfg (va_after is_name 2 (Some a) t ss) bno s t = (o, s') ->
+    o <> Rejected -> resolve is_name s (t_from t) = a.
+  Proof. rewrite (offers_keep_binding a t ss). apply exec_tx_pooled_as_verified. Qed.
+  (** the original code lost the binding at the first offer, whatever its outcome (F51) *)
+  Lemma old_code_loses_binding_refuted a t s : va_after is_name 0 (Some a) t [s] = None.
+  Proof. reflexivity. Qed.
+  (** after F51 alone an offer whose comparison succeeded (e.g. executed in a discarded attempt) still lost it (F52) *)
+  Lemma f51_code_loses_binding_after_success_refuted a t s :
+    resolve is_name s (t_from t) = a -> va_after is_name 1 (Some a) t [s] = None.
+  Proof. intros E. simpl. rewrite E, N.eqb_refl. reflexivity. Qed.
+  (** ... while refused offers kept it *)
+  Lemma f51_refused_offers_keep_binding a t ss :
+    Forall (fun s => resolve is_name s (t_from t) <> a) ss -> va_after is_name 1 (Some a) t ss = Some a.
+  Proof.
+    induction ss as [|s tl IH]; intros H; [reflexivity|]. inversion H; subst. simpl.
+    destruct (N.eqb_spec a (resolve is_name s (t_from t))) as [E|E]; [congruence|]. simpl. auto.
+  Qed.
+
   (** C03, commit-only path: a supplied block state that is not the one the header commits to leaves the node state *)
   Theorem commit_only_fail_unchanged (root_of : lstate -> N) hdr supplied s :
     root_of supplied <> hdr -> commit_only root_of hdr supplied s = s.
